@@ -29,7 +29,10 @@ var pool struct {
 	nfree int
 
 	known   [maxCtx]*rux.Context
+	owner   [maxCtx]int // which pool (router) the context belongs to
 	nknown  int
+	pools   [8]any
+	npools  int
 	dirt    [maxCtx]int  // dirtiness score recorded at Put
 	inUse   [maxCtx]bool // handed out and not yet returned
 	lastPan [maxCtx]bool
@@ -79,6 +82,10 @@ func poolReset(cfg PoolCfg) {
 		pool.dirt[i] = 0
 	}
 	pool.nknown = 0
+	for i := 0; i < pool.npools; i++ {
+		pool.pools[i] = nil
+	}
+	pool.npools = 0
 	pool.gets, pool.puts, pool.reuses, pool.drops = 0, 0, 0, 0
 	pool.doublePut, pool.putNotOut, pool.sharedOut = 0, 0, 0
 }
@@ -94,13 +101,31 @@ func poolIDOf(c *rux.Context) int {
 }
 
 //go:norace
-func poolRegister(c *rux.Context) int {
+func poolRegister(c *rux.Context, owner int) int {
 	if pool.nknown >= maxCtx {
 		return -1
 	}
 	pool.known[pool.nknown] = c
+	pool.owner[pool.nknown] = owner
 	pool.nknown++
 	return pool.nknown - 1
+}
+
+// poolIndex numbers the pools (routers) of a world in order of first use.
+//
+//go:norace
+func poolIndex(p any) int {
+	for i := 0; i < pool.npools; i++ {
+		if pool.pools[i] == p {
+			return i
+		}
+	}
+	if pool.npools < len(pool.pools) {
+		pool.pools[pool.npools] = p
+		pool.npools++
+		return pool.npools - 1
+	}
+	return 0
 }
 
 //go:norace
@@ -115,27 +140,39 @@ func poolNextRand() uint64 {
 // poolTake chooses and removes a free id, or returns -1.
 //
 //go:norace
-func poolTake() int {
+func poolTake(owner int) int {
 	if pool.nfree == 0 || pool.policy == polFresh {
+		return -1
+	}
+	// candidates: the free contexts of this pool
+	var cand [maxCtx]int
+	nc := 0
+	for i := 0; i < pool.nfree; i++ {
+		if pool.owner[pool.free[i]] == owner {
+			cand[nc] = i
+			nc++
+		}
+	}
+	if nc == 0 {
 		return -1
 	}
 	k := 0
 	switch pool.policy {
 	case polLIFO:
-		k = pool.nfree - 1
+		k = cand[nc-1]
 	case polFIFO:
-		k = 0
+		k = cand[0]
 	case polRandom:
 		// one time in four behave like an empty pool, as a GC'd or per-P-missed pool does
 		if poolNextRand()%4 == 0 {
 			return -1
 		}
-		k = int(poolNextRand() % uint64(pool.nfree))
+		k = cand[int(poolNextRand()%uint64(nc))]
 	case polDirty:
 		best := -1
-		for i := 0; i < pool.nfree; i++ {
-			if d := pool.dirt[pool.free[i]]; d >= best {
-				best, k = d, i
+		for j := 0; j < nc; j++ {
+			if d := pool.dirt[pool.free[cand[j]]]; d >= best {
+				best, k = d, cand[j]
 			}
 		}
 	}
@@ -148,9 +185,9 @@ func poolTake() int {
 }
 
 //go:norace
-func poolGetChoose() (*rux.Context, int, bool) {
+func poolGetChoose(owner int) (*rux.Context, int, bool) {
 	pool.gets++
-	id := poolTake()
+	id := poolTake(owner)
 	if id < 0 {
 		return nil, -1, false
 	}
@@ -164,8 +201,8 @@ func poolGetChoose() (*rux.Context, int, bool) {
 }
 
 //go:norace
-func poolRegisterInUse(c *rux.Context) int {
-	id := poolRegister(c)
+func poolRegisterInUse(c *rux.Context, owner int) int {
+	id := poolRegister(c, owner)
 	if id >= 0 {
 		pool.inUse[id] = true
 	}
@@ -176,12 +213,12 @@ func poolRegisterInUse(c *rux.Context) int {
 // poolPutRecord returns the id and whether the object joined the free list.
 //
 //go:norace
-func poolPutRecord(c *rux.Context, dirt int) (int, bool) {
+func poolPutRecord(c *rux.Context, dirt, owner int) (int, bool) {
 	pool.puts++
 	pool.putCount++
 	id := poolIDOf(c)
 	if id < 0 {
-		id = poolRegister(c) // a context the pool never handed out (HandleContext on a foreign context)
+		id = poolRegister(c, owner) // a context the pool never handed out (HandleContext on a foreign context)
 		if id < 0 {
 			return -1, false
 		}
@@ -231,14 +268,15 @@ func poolFreeSnapshot(buf *[16]int) int {
 // hook bodies (instrumented on purpose: the atomic cells are the only
 // synchronisation the pool contributes)
 
-func hookPoolGet(newFn func() any) any {
+func hookPoolGet(p any, newFn func() any) any {
 	if !poolOn() {
 		return newFn() // outside a simulated run (solo twins): every request gets a fresh context
 	}
-	c, id, reused := poolGetChoose()
+	owner := poolIndex(p)
+	c, id, reused := poolGetChoose(owner)
 	if !reused {
 		c = newFn().(*rux.Context)
-		id = poolRegisterInUse(c)
+		id = poolRegisterInUse(c, owner)
 	}
 	if reused && id >= 0 {
 		atomic.LoadUint32(&poolCells[id]) // acquire: pairs with the Put that released this object
@@ -246,13 +284,13 @@ func hookPoolGet(newFn func() any) any {
 	return c
 }
 
-func hookPoolPut(x any) {
+func hookPoolPut(p any, x any) {
 	c, ok := x.(*rux.Context)
 	if !ok || c == nil || !poolOn() {
 		return
 	}
 	d := dirtiness(c)
-	id, _ := poolPutRecord(c, d)
+	id, _ := poolPutRecord(c, d, poolIndex(p))
 	if id >= 0 {
 		atomic.StoreUint32(&poolCells[id], 1) // release
 	}
